@@ -17,10 +17,27 @@ RETURN_NAMES = {"RETURN_VALUE", "RETURN_CONST"}
 TABLES = {"cond": "_cond_jump", "uncond": "_uncond_jump", "term": "_terminating"}
 
 
+PREDICATES = {"cond": "is_conditional_jump", "uncond": "is_unconditional_jump", "term": "is_exiting"}
+
+
+def _table_name(ctx, role: str) -> str:
+    """the table a classification predicate consults (`return opname in <table>`): by the predicate, so that
+    renaming the module constant is not seen; the audited name when the predicate is spelt otherwise"""
+    f = ctx.prog.find_function(PREDICATES[role])
+    if f is not None and len(f.params) == 1:
+        body = A.body_without_docstring(f.node)
+        if len(body) == 1 and isinstance(body[0], ast.Return) and isinstance(body[0].value, ast.Compare) and len(body[0].value.ops) == 1 \
+                and isinstance(body[0].value.ops[0], ast.In) and isinstance(body[0].value.left, ast.Name) and body[0].value.left.id == f.params[0].arg \
+                and isinstance(body[0].value.comparators[0], ast.Name):
+            return body[0].value.comparators[0].id
+    return TABLES[role]
+
+
 def _tables(ctx) -> Dict[str, Set[str]]:
     m = ctx.prog.module("utils")
     out = {}
-    for role, name in TABLES.items():
+    for role in TABLES:
+        name = _table_name(ctx, role)
         mm, node = _table_node(ctx, name)
         # the table as it stands after the module's top-level statements (later .update(..) / |= folded in)
         folded = ctx.prog.module_consts(mm)
@@ -55,7 +72,7 @@ def table1(ctx) -> List[Ob]:
     out: List[Ob] = []
     tabs = _tables(ctx)
     m = ctx.prog.module("utils")
-    _tm, _tn = _table_node(ctx, "_cond_jump")
+    _tm, _tn = _table_node(ctx, _table_name(ctx, "cond"))
     where = f"{_tm.relpath}:{A.lineno(_tn)}"
     exes = interpreters() if ctx.tier == "thorough" else interpreters()[:1]
     ctx.stats["TABLE-1.interpreters"] = exes
@@ -118,7 +135,8 @@ def table2(ctx) -> List[Ob]:
         raise AnalysisError("FlowInfo.from_bytecode not found")
     um = ctx.prog.module("utils")
     preds = {}
-    for role, tname in TABLES.items():
+    for role in TABLES:
+        tname = _table_name(ctx, role)
         for f in um.functions.values():
             rets = [n for n in A.walk_no_nested(f.node) if isinstance(n, ast.Return) and n.value is not None]
             if len(rets) == 1 and isinstance(rets[0].value, ast.Compare) and isinstance(rets[0].value.ops[0], ast.In) and A.unparse(rets[0].value.comparators[0]) == tname:
@@ -199,7 +217,7 @@ def table3(ctx) -> List[Ob]:
     out: List[Ob] = []
     tabs = _tables(ctx)
     m = ctx.prog.module("utils")
-    _tm, _tn = _table_node(ctx, "_uncond_jump")
+    _tm, _tn = _table_node(ctx, _table_name(ctx, "uncond"))
     where = f"{_tm.relpath}:{A.lineno(_tn)}"
     exes = interpreters() if ctx.tier == "thorough" else interpreters()[:1]
     for exe in exes:
